@@ -245,6 +245,38 @@ def run(ctx: core.Ctx):
                 e["exc"] = type(ex).__name__
         nan_evs.append(e)
     evs += nan_evs
+    # history: construct, then the CALLER writes into the very arrays it handed over, then constructs
+    # again from the same array objects - every construction validates the scores it is given NOW
+    hist_evs = []
+    okdom, anydom = [0, 1, mid, mid + 1], [-1, 0, 1, mid, mid + 1, mid + 2]
+    for k in range(40 if ctx.tier == "quick" else 400):
+        ng, nf = int(rnd.randint(1, 4)), int(rnd.randint(1, 4))
+        plan = [([okdom[int(x)] for x in rnd.randint(0, 4, ng)], [okdom[int(x)] for x in rnd.randint(0, 4, nf)])]
+        plan.append(([anydom[int(x)] for x in rnd.randint(0, 6, ng)], [anydom[int(x)] for x in rnd.randint(0, 6, nf)]))
+        if k % 2:
+            (plan[1][0] if k % 4 == 1 else plan[1][1])[-1] = [-1, mid + 2][k % 3 == 0]     # certainly outside
+        plan.append(([okdom[int(x)] for x in rnd.randint(0, 4, ng)], [okdom[int(x)] for x in rnd.randint(0, 4, nf)]))
+        if k % 5 == 0:
+            plan = plan[1:] + plan[:1]                      # refused first, accepted afterwards
+        ga, fa = np.zeros(ng), np.zeros(nf)
+        for step, (gv, fv) in enumerate(plan):
+            ga[:] = [realise(v, mid, k) for v in gv]        # in place: the same array objects every time
+            fa[:] = [realise(v, mid, k + 1) for v in fv]
+            e = {"id": next(ids), "cid": 0, "op": "fraud_nan", "exc": "", "g": gv, "f": fv, "history_step": step}
+            with warnings.catch_warnings():
+                warnings.simplefilter("ignore")
+                try:
+                    if k % 3 == 2:
+                        lab = np.array(["G"] * ng + ["F"] * nf)
+                        _F.from_labels(lab, np.concatenate([ga, fa]), genuine_label="G")
+                    else:
+                        _F(genuines=ga, frauds=fa, score_class=["genuine", "fraud"][k % 2])
+                except ValueError:
+                    e["exc"] = "ValueError"
+                except Exception as ex:  # noqa
+                    e["exc"] = type(ex).__name__
+            hist_evs.append(e)
+    evs += hist_evs
     # from_labels: a genuine_label that no label equals (also of another type) makes every sample a fraud
     mm_evs = []
     for k, (labels_, gl) in enumerate([(np.array([1, 0, 1, 2]), None), (np.array([1, 0, 1, 2]), 1.5), (np.array([1, 0, 1, 2]), "1"),
